@@ -420,7 +420,8 @@ class FakeSnowflakeCursor:
 
     def fetchmany(self, size: int | None = None) -> list[tuple] | list[dict]:
         # https://peps.python.org/pep-0249/#fetchmany
-        size = size or self._arraysize
+        # NB: a size of 0 fetches no rows, rather than arraysize rows
+        size = self._arraysize if size is None else size
 
         if self._arrow_table is None:
             # mimic snowflake python connector error type
